@@ -870,7 +870,16 @@ func (g *dGen) stmt(depth, abs int, chain dPath) *dStmt {
 		return s
 	case k < 84 && depth < 3:
 		p, abs2 := g.path(abs, true)
-		s := &dStmt{kind: "group", path: p.text, ids: g.ids(2), own: p}
+		gids := g.ids(2)
+		if g.r.Intn(8) == 0 {
+			// Group("", fn) — and half of the time with no handlers either: contributes nothing
+			// to its routes, but is still a level of the stack
+			p, abs2 = dPath{}, abs
+			if g.r.Intn(2) == 0 {
+				gids = nil
+			}
+		}
+		s := &dStmt{kind: "group", path: p.text, ids: gids, own: p}
 		s.body = g.block(depth+1, abs2, chain.cat(p), 1+g.r.Intn(3))
 		if g.r.Intn(5) == 0 {
 			// a panic somewhere in the body, recovered by the caller
@@ -1040,11 +1049,21 @@ func dAtoms(g *dGen) []func() *dStmt {
 	id := func() int { g.next++; return g.next }
 	P := func(t string) dPath { return dPath{text: t, long: t} }
 	return []func() *dStmt{
-		func() *dStmt { return &dStmt{kind: "verb", method: "get", path: "/a", ids: []int{id()}, own: P("/a"), gp: P("/a")} },
-		func() *dStmt { return &dStmt{kind: "verb", method: "post", path: "/a", ids: []int{id(), id()}, own: P("/a"), gp: P("/a")} },
-		func() *dStmt { return &dStmt{kind: "verb", method: "head", path: "/a", ids: []int{id()}, own: P("/a"), gp: P("/a")} },
-		func() *dStmt { return &dStmt{kind: "route", method: "get", path: "/a", ids: []int{id()}, own: P("/a"), gp: P("/a")} },
-		func() *dStmt { return &dStmt{kind: "route", method: "FOO", path: "/a", ids: []int{id()}, own: P("/a"), gp: P("/a")} },
+		func() *dStmt {
+			return &dStmt{kind: "verb", method: "get", path: "/a", ids: []int{id()}, own: P("/a"), gp: P("/a")}
+		},
+		func() *dStmt {
+			return &dStmt{kind: "verb", method: "post", path: "/a", ids: []int{id(), id()}, own: P("/a"), gp: P("/a")}
+		},
+		func() *dStmt {
+			return &dStmt{kind: "verb", method: "head", path: "/a", ids: []int{id()}, own: P("/a"), gp: P("/a")}
+		},
+		func() *dStmt {
+			return &dStmt{kind: "route", method: "get", path: "/a", ids: []int{id()}, own: P("/a"), gp: P("/a")}
+		},
+		func() *dStmt {
+			return &dStmt{kind: "route", method: "FOO", path: "/a", ids: []int{id()}, own: P("/a"), gp: P("/a")}
+		},
 		func() *dStmt { return &dStmt{kind: "any", path: "/b", ids: []int{id()}, own: P("/b"), gp: P("/b")} },
 		func() *dStmt {
 			return &dStmt{kind: "routes", path: "/a", methods: "GET, post", args: []dArg{{id: id()}}, own: P("/a"), gp: P("/a")}
